@@ -141,6 +141,13 @@ RelClauses(S, d, prune, o, outs, orcs) ==
                 {KT \o "C13.RewRenumbered s=" \o S2(s) :
                     s \in {s \in o1.dom : rtol(s) < Nano /\
                              ~FixNear(Fx(o.rew[rel.pi[s]]), Fx(o1.rew[s]), rtol(s))}}
+                \* states the conditioned play cannot enter: whatever the solver reports for them (cleared
+                \* or not), it must not depend on the presentation; a coarse tolerance, since no bound
+                \* on the stopping error is available there
+                \cup {KT \o "C13.RewRenumbered (outside the reachable part) s=" \o S2(s) :
+                    s \in {s \in (1..g.n) \ o1.dom :
+                             Len(o1.rew) = g.n /\ Len(o.rew) = g.n /\ o1.rew[s].k = "ok" /\ o.rew[rel.pi[s]].k = "ok"
+                             /\ ~FixNear(Fx(o.rew[rel.pi[s]]), Fx(o1.rew[s]), 10000000)}}
                 \cup {KT \o "C13.FStratRenamed s=" \o S2(s) :
                     s \in {s \in o1.dom : g.owner[s] # PR /\ ~o1.rstrat[s].none /\
                              LET row == SelectSeq(g.tr[s], LAMBDA e :
